@@ -167,6 +167,9 @@ type Scenario struct {
 	Subs       [][]Submission // per submitter goroutine
 	MeasureMem bool
 	RecvFrom   int // ms: the consumer of msgsFromPanel starts receiving only then (0 = at once)
+	SubConn      int    // submissions start at this (0-based) onconnect; -1: before the call (queued when the connection comes up)
+	ConnectSleep int    // ms the onconnect callback takes
+	ConnectWrite []byte // bytes the onconnect callback writes to the conn it is handed
 }
 
 // ---------- canonical digests (oracle values for unmarshal / decode / marshal) ----------
@@ -322,29 +325,41 @@ func runScenario(sc *Scenario) []Sx {
 			close(recvDone)
 		}()
 		var subWG sync.WaitGroup
-		firstConnect := true
+		startSubs := func() {
+			for _, sub := range sc.Subs {
+				subWG.Add(1)
+				go func(list []Submission) {
+					defer subWG.Done()
+					time.Sleep(time.Duration(sc.SubStart) * time.Millisecond)
+					for _, s := range list {
+						if s.Delay > 0 {
+							time.Sleep(time.Duration(s.Delay) * time.Millisecond)
+						}
+						select {
+						case toPanel <- s.Msgs:
+						case <-ctx.Done():
+							return
+						}
+					}
+				}(sub)
+			}
+		}
+		nConnect := 0
 		onconnect := func(e string, bin bool, c net.Conn) {
 			lg.add(func(t int) Sx { return L(Sym("con"), t, []byte(e), bin) })
-			if firstConnect && len(sc.Subs) > 0 {
-				firstConnect = false
-				for _, sub := range sc.Subs {
-					subWG.Add(1)
-					go func(list []Submission) {
-						defer subWG.Done()
-						time.Sleep(time.Duration(sc.SubStart) * time.Millisecond)
-						for _, s := range list {
-							if s.Delay > 0 {
-								time.Sleep(time.Duration(s.Delay) * time.Millisecond)
-							}
-							select {
-							case toPanel <- s.Msgs:
-							case <-ctx.Done():
-								return
-							}
-						}
-					}(sub)
-				}
+			if len(sc.ConnectWrite) > 0 {
+				c.Write(sc.ConnectWrite)
 			}
+			if sc.ConnectSleep > 0 {
+				time.Sleep(time.Duration(sc.ConnectSleep) * time.Millisecond)
+			}
+			if nConnect == sc.SubConn && len(sc.Subs) > 0 {
+				startSubs()
+			}
+			nConnect++
+		}
+		if sc.SubConn < 0 && len(sc.Subs) > 0 {
+			startSubs()
 		}
 		ondisconnect := func(b bool) { lg.add(func(t int) Sx { return L(Sym("dis"), t, b) }) }
 		var cfg *rwl.ConnectToPanelConfig
@@ -465,6 +480,9 @@ func servePeer(lg *obsLog, pr *peerRec, cs *ConnScript, base time.Time) {
 		if tc, ok := pr.conn.(*net.TCPConn); ok {
 			tc.CloseWrite() // FIN; keep reading so that no RST is provoked
 		}
+	case "fullclose":
+		time.Sleep(time.Until(base.Add(time.Duration(cs.EndT) * time.Millisecond)))
+		pr.conn.Close()
 	case "reset":
 		time.Sleep(time.Until(base.Add(time.Duration(cs.EndT) * time.Millisecond)))
 		if tc, ok := pr.conn.(*net.TCPConn); ok {
@@ -570,7 +588,7 @@ func (sc *Scenario) inputSx() []Sx {
 		subs = append(subs, one)
 	}
 	return []Sx{
-		L(Sym("cfg"), Sym(sc.Entry), sc.UseCfg, sc.NoConn, sc.ReConn, sc.ListenFrom, sc.Cancel, sc.Sensitive, sc.RecvFrom),
+		L(Sym("cfg"), Sym(sc.Entry), sc.UseCfg, sc.NoConn, sc.ReConn, sc.ListenFrom, sc.Cancel, sc.Sensitive, sc.RecvFrom, sc.SubConn, sc.ConnectSleep, sc.ConnectWrite),
 		conns, ol, L(Sym("subs"), sc.SubStart, subs),
 	}
 }
@@ -635,6 +653,9 @@ func parseScenario(line string) *Scenario {
 	sc.Sensitive = cfg[7].Bool()
 	if len(cfg) > 8 {
 		sc.RecvFrom = cfg[8].Int()
+	}
+	if len(cfg) > 11 {
+		sc.SubConn, sc.ConnectSleep, sc.ConnectWrite = cfg[9].Int(), cfg[10].Int(), cfg[11].Bytes()
 	}
 	for _, c := range n.Kids[3].Kids {
 		var cs ConnScript
@@ -810,4 +831,33 @@ func replayScenario(line string) {
 	}
 	ev := runScenario(sc)
 	emit(sc.caseSx(ev))
+}
+
+// A panic in a goroutine the library starts itself (the writer goroutine) cannot be recovered
+// and kills the process.  So that such a misbehaviour still comes out as an observation the
+// oracle can judge - never as a silently truncated case stream - the generators run in a child
+// process; if it dies, the parent emits one case holding a `panic` observation.
+func runInChild() bool {
+	if os.Getenv("VERIF_NET_CHILD") != "" {
+		return false
+	}
+	exe, err := os.Executable()
+	if err != nil {
+		return false
+	}
+	out.Flush()
+	cmd := exec.Command(exe, os.Args[1:]...)
+	cmd.Env = append(os.Environ(), "VERIF_NET_CHILD=1")
+	cmd.Stdout = os.Stdout
+	var eb strings.Builder
+	cmd.Stderr = &eb
+	if err := cmd.Run(); err != nil {
+		tail := eb.String()
+		if len(tail) > 3000 {
+			tail = tail[:3000]
+		}
+		fmt.Fprintln(os.Stderr, "harness child died:", err, tail)
+		fmt.Fprintln(os.Stdout, "(scn harness-child-died (cfg client 0 0 0 0 0 0 0 0 0 #) () (orc) (subs 0 ()) (rorc) (obs (panic 0)))")
+	}
+	return true
 }
